@@ -630,10 +630,18 @@ def rule_group_members(ck, ix):
     for a in unions:
         ck.check(isinstance(a.op, ast.BitOr), "G-PROV", "Group.members|union", m.loc(a), "members accumulated with |=",
                  f"members accumulated with `{norm(a)}` (not a union)")
+    acc = unions + [c for c in walk_local(m.node) if isinstance(c, ast.Call) and call_name(c) in ("update", "union") and c.args and "members" in norm(c.args[0])]
+    ck.check(bool(acc), "G-PROV", "Group.members|union-present", m.loc(), "members of used groups are united into the result", "the members of the used groups are no longer united into the result")
     it = ix.func(GO, "Group.iter_used_groups")
     ck.analysed(it)
     src = norm(it.node)
-    ck.check("pending |= " in src and "_used_groups" in src and "while pending" in src, "G-PROV", "Group.iter_used_groups|transitive-worklist", it.loc(),
+    # a worklist closure: a loop runs while the pending set is non-empty, takes one name out, and the names that the
+    # group taken out uses are put back (|=, update, add ... of <group>._used_groups)
+    loops = [w for w in walk_local(it.node) if isinstance(w, ast.While)]
+    grow = [x for w in loops for x in ast.walk(w) if (isinstance(x, ast.AugAssign) and isinstance(x.op, ast.BitOr) and "_used_groups" in norm(x.value) and norm(x.target) == norm(w.test))
+            or (isinstance(x, ast.Call) and call_name(x) in ("update", "extend") and norm(x.func.value) == norm(w.test) and x.args and "_used_groups" in norm(x.args[0]))]
+    take = [x for w in loops for x in ast.walk(w) if isinstance(x, ast.Call) and call_name(x) in ("pop", "popleft") and norm(x.func.value) == norm(w.test)]
+    ck.check(bool(loops) and bool(grow) and bool(take), "G-PROV", "Group.iter_used_groups|transitive-worklist", it.loc(),
              "worklist closure over _used_groups", "iter_used_groups is no longer a transitive worklist over _used_groups")
     # cycle test before mutation in add_groups
     m = ix.func(GO, "Group.add_groups")
